@@ -65,7 +65,7 @@ class Opts(object):
         # names of known-finding regions the generator must stay out of; the two defaults are
         # parser/compile-layer defects that hit every codec (recorded in known_findings/C19.json)
         self.avoid = set()
-        self.base_avoid = {'numeric_string_default', 'ref_bool_default'}
+        self.base_avoid = {'numeric_string_default'}
         self.__dict__.update(kw)
         self.avoid = set(self.avoid) | set(self.base_avoid)
 
@@ -174,6 +174,8 @@ class Gen(object):
                 bits = sorted(r.sample(range(0, 12), nb))
                 t['named'] = [('b%d' % b, b) for b in bits]
                 if t['size'] is not None and t['size']['hi'] is not None and t['size']['hi'] <= bits[-1]:
+                    t['size'] = None
+                if 'named_bits_with_size' in o.avoid:
                     t['size'] = None
             return t
         if k == 'STRING':
@@ -722,8 +724,11 @@ def norm(rt_of, t, v, numeric_enums=False):
                     dv = dict(rt['root'] + (rt['ext'] or []))[dv]
                 out[m['name']] = norm(rt_of, m['t'], dv, numeric_enums)
         return out
-    if k in ('SEQUENCE OF', 'SET OF'):
+    if k == 'SEQUENCE OF':
         return [norm(rt_of, t['elem'], x, numeric_enums) for x in v]
+    if k == 'SET OF':
+        # a SET OF is a multiset: canonical order for comparison
+        return sorted((norm(rt_of, t['elem'], x, numeric_enums) for x in v), key=repr)
     if k == 'CHOICE':
         byname = {m['name']: m for m in t['root'] + (t['ext'] or [])}
         return (v[0], norm(rt_of, byname[v[0]]['t'], v[1], numeric_enums))
